@@ -37,7 +37,7 @@ def _params_src(sc, lits) -> str:
 
 
 def concretise(scs, lits) -> str:
-    out = ["from dataclasses import dataclass", "from typing import Optional", ""]
+    out = ["import dataclasses", "from dataclasses import dataclass, field", "from typing import Optional", ""]
     for sc in scs:
         i, ck = sc["id"], sc["ck"]
         ps = _params_src(sc, lits)
@@ -52,10 +52,12 @@ def concretise(scs, lits) -> str:
             out += [f"def f{i}({ps}):", *doc, "    ...", ""]
         elif ck == "dataclass":
             fields = []
-            for p in sc["params"]:
+            for j, p in enumerate(sc["params"]):      # the three spellings of a field value
                 lit = lits[p["lit"] - 1] if p["lit"] else None
-                fields.append(f"    {p['name']}: {ANN_BY_T[lit['t']] if lit else 'int'}" + (f" = {lit_src(lit['src'])}" if lit else ""))
-            out += ["@dataclass", f"class K{i}:", *fields, ""]
+                val = "" if not lit else [" = {}", " = field(default={})", " = dataclasses.field(default={})"][(i + j) % 3].format(lit_src(lit["src"]))
+                fields.append(f"    {p['name']}: {ANN_BY_T[lit['t']] if lit else 'int'}" + val)
+            # a dataclass that inherits every field; and an ordinary class with an explicit constructor whose default is `...`
+            out += ["@dataclass", f"class K{i}:", *fields, "", "@dataclass", f"class KSub{i}(K{i}):", "    pass", ""]
         elif ck == "refunction":
             first = sc["params"][0]["name"] if sc["params"] and sc["params"][0]["kind"] in ("pos", "posonly") else "p1"
             out += [f"def f{i}({first}=7, zold=8): ...", "", f"def f{i}({ps}): ...", ""]
